@@ -339,6 +339,25 @@ theorem validate_with_options (A : CoreArgs) (T : ScopeTable) (d : Depth) (S : S
   rw [hp, hj, hc]
   simp only [pick, strictOrdered_take, List.append_assoc]
 
+/-- **C20 (verdict, with dataframe-level checks)** for **every** dataframe-level check function: when `run_checks`
+receives the subsample too, the errors are those of validating the selected rows with the same functions -/
+theorem validate_with_options_and_checks (A : CoreArgs) (fcArg : Arg) (fc : Frame → List Err) (T : ScopeTable) (d : Depth)
+    (S : Schema) (D : Frame) (ps : List Nat)
+    (hj : A.jointUnique = .sample) (hc : A.components = .sample) (hf : fcArg = .sample) :
+    frameErrorsWithChecks A fcArg fc T d S D ps = frameErrors T d S (D.take ps) ++ fc (D.take ps) := by
+  unfold frameErrorsWithChecks
+  rw [validate_with_options A T d S D ps hj hc, hf]
+  rfl
+
+/-- handing the whole object to the dataframe-level checks lets a row nobody asked for decide the verdict -/
+theorem whole_frame_checks_witness :
+    ∃ (fc : Frame → List Err) (T : ScopeTable) (S : Schema) (D : Frame),
+      frameErrorsWithChecks ⟨.whole, .sample, .sample⟩ .whole fc T .schemaAndData S D [0]
+        ≠ frameErrors T .schemaAndData S (D.take [0]) ++ fc (D.take [0]) :=
+  ⟨fun X => if X.nrows > 1 then [{ reason := .dataframeCheck, ctx := .frame, label := none }] else [],
+   ⟨none, none, none, none, none, none, none, none, none, none⟩, {},
+   { cols := [], index := [⟨none, .int64, [.int 0, .int 1]⟩], nrows := 2 }, by decide⟩
+
 /-- the same for a field (SeriesSchema, Index, polars Column): whatever the name check receives -/
 theorem field_with_options (A : FieldArgs) (T : ScopeTable) (d : Depth) (ctx : Ctx) (spec : ColSpec)
     (fn : Option String) (phys : DType) (vals : List Val) (ps : List Nat)
